@@ -192,3 +192,4 @@ def run(rep, tier):
     for o in obs:
         rep.add(o)
     native.search_on_failure(rep, 'C28', obs)
+    verus.settle_lost_anchors(u, obs, rep)
